@@ -28,4 +28,52 @@ PROPS = {
         "trusted_base": TB_COMMON,
         "assumptions": ["sort.SliceStable is a stable sort", "rule outcome independent of schedule"],
     },
+    "C05": {
+        "lean": ["GV.Props.C05"],
+        "scenarios": [{"scn": "orch", "filter": MIX_NM, "n": {"quick": 300, "thorough": 4000},
+                       "aspects": ["outcome", "trace", "driver", "build"]}],
+        "rule": "random rule sets, mix / inverse-mix / N-M methods (plain and selected), random n/m incl. invalid, gate-scheduled goroutines with three grant strategies; non-trivial = at least two rules started",
+        "trusted_base": TB_COMMON,
+        "assumptions": ["Go scheduler fairness (liveness is not proved)", "rule outcome independent of schedule"],
+    },
+    "C11": {
+        "lean": ["GV.Props.C11"],
+        "scenarios": [{"scn": "orch", "n": {"quick": 400, "thorough": 5000},
+                       "aspects": ["results", "driver", "build"]}],
+        "rule": "all 21 Execute* methods, fresh engine or engine used by a previous call, returning / bare-return / silent / failing / failing-return rules; non-trivial = at least two rules started",
+        "trusted_base": TB_COMMON,
+        "assumptions": [],
+    },
+    "C12": {
+        "lean": ["GV.Props.C12"],
+        "scenarios": [{"scn": "orch", "filter": SELECTED, "n": {"quick": 300, "thorough": 4000},
+                       "aspects": ["outcome", "trace", "crash", "driver", "build"]}],
+        "rule": "selected-rule methods, name lists = random sub-permutations plus unknown names, empty lists",
+        "trusted_base": TB_COMMON,
+        "assumptions": [],
+    },
+    "C13": {
+        "lean": ["GV.Props.C13"],
+        "scenarios": [{"scn": "orch", "filter": "ExecuteDAGModel", "n": {"quick": 200, "thorough": 3000},
+                       "aspects": ["outcome", "trace", "driver", "build"]}],
+        "rule": "DAG layerings (0-4 layers, width 0-3, unknown and repeated names), failing subsets, gate scheduler",
+        "trusted_base": TB_COMMON,
+        "assumptions": [],
+    },
+    "C14": {
+        "lean": ["GV.Props.C14"],
+        "scenarios": [{"scn": "orch", "filter": STOP, "n": {"quick": 250, "thorough": 3000},
+                       "aspects": ["outcome", "trace", "driver", "build"]}],
+        "rule": "stop-tag variants; each rule sets the tag with probability 1/4",
+        "trusted_base": TB_COMMON,
+        "assumptions": [],
+    },
+    "C09": {
+        "lean": ["GV.Props.C09"],
+        "scenarios": [{"scn": "orch", "n": {"quick": 400, "thorough": 5000},
+                       "aspects": ["crash", "driver", "build"]}],
+        "rule": "all 21 Execute* methods with failing rules in every position; crash = panic in the caller, process death (panic in a goroutine) or hang",
+        "trusted_base": TB_COMMON,
+        "assumptions": ["injected functions terminate"],
+    },
 }
